@@ -491,6 +491,8 @@ class RestartRun:
         self.quiet_same = {}         # folded rel path -> tag of the files equal on both sides at the last quiescence
         self.quiet_marks = set()     # positions in rec.ops at which the engine was quiet
         self.stops_with_walk_pending = 0
+        self.case_renames = 0        # case-only renames made inside a lost-cursor window (checked with exact case)
+        self.grow_renames = 0        # all renames / moves made inside a lost-cursor window
         self.fresh_names = 0
         w = self.w
 
@@ -568,6 +570,35 @@ class RestartRun:
         dirs = [k for k, v in t.items() if v[0] == "d" and ok(k) and not conflicted(k) and k.count("/") < 2]
         parents = dirs + [""]
         r = rng.random()
+        prov = self.w.provs[side]
+        if not prov.oid_is_path and rng.random() < 0.35:
+            # a rename / move of an id-stable object is visible to a walk (same id, new path); on a case-insensitive side also
+            # a rename that changes nothing but the letter case.  (Deletions stay excluded; path-id sides too: a rename is a
+            # deletion plus a creation there.)
+            movable = files + ([d for d in dirs] if allow_mkdir else [])
+            if movable:
+                src = rng.choice(movable)
+                head, leaf = src.rsplit("/", 1)
+                how = rng.choice(["case", "case", "rename", "move"] if not prov.case_sensitive else ["rename", "move"])
+                # where the other side is case-sensitive, a later creation there of the old spelling would be a genuine name clash
+                # (two names on one side, one on the other): only objects with run-unique names ("g<N>") are case-renamed there
+                mixed = self.w.provs[1 - side].case_sensitive
+                if how == "case" and leaf.swapcase() != leaf and (not mixed or leaf[:1] == "g"):
+                    if rec.user(side, "rename", src, head + "/" + leaf.swapcase()):
+                        self.case_renames += 1
+                        self.grow_renames += 1
+                        return True
+                    return False
+                self.fresh_names += 1
+                dst = "%s/g%d" % (head, self.fresh_names)
+                if how == "move":
+                    targets = [d for d in parents if d != src and not d.startswith(src + "/") and d != head]
+                    if targets:
+                        dst = "%s/g%d" % (rng.choice(targets), self.fresh_names)
+                if rec.user(side, "rename", src, dst):
+                    self.grow_renames += 1
+                    return True
+                return False
         if files and r < 0.4:
             return rec.user(side, "write", rng.choice(files), tag=rec.fresh())
         self.fresh_names += 1
@@ -662,8 +693,18 @@ class RestartRun:
             out.append("c06r | %s | %s" % (" ".join(map(str, unchanged)), " ".join(map(str, moved))))
         return out
 
+    def exact_case_lines(self, sm):
+        """on flavours whose trees are compared case-folded: if the run made a case-only rename inside a lost-cursor window, the
+        two sides must also agree letter for letter (the rename is a user change like any other and must reach the other side)"""
+        if not (self.fold and self.case_renames):
+            return []
+        sm = dict(sm)
+        sm["exact_case"] = True
+        return [("line", "c01 | %s | %s" % (enc_tree(self.w.tree(0)), enc_tree(self.w.tree(1))), sm, None)]
+
     def summary(self, extra=None):
-        d = case_summary(self.rec, {"storage": self.w.storage_kind, "events": self.log, "stops_with_walk_pending": self.stops_with_walk_pending})
+        d = case_summary(self.rec, {"storage": self.w.storage_kind, "events": self.log, "stops_with_walk_pending": self.stops_with_walk_pending,
+                                    "case_only_renames_in_lost_window": self.case_renames, "renames_in_lost_window": self.grow_renames})
         if rowid_signature(self.w):
             d["signature"] = KF_ROWID
         d["schedule"] = self.rec.trace[-400:]
@@ -728,6 +769,7 @@ def case_settled(fl, storage, rng):
         out = [("line", "c01 | %s | %s" % (enc_tree(tl, run.fold), enc_tree(tr, run.fold)), run.summary({"family": "settled"}), key),
                ("line", "c06a | %s | %s" % (enc_tree(tl), enc_tree(tr)), run.summary({"family": "settled"}), None)]
         out += [("line", ln, run.summary({"family": "settled"}), None) for ln in run.retransfer_lines()]
+        out += run.exact_case_lines(run.summary({"family": "settled"}))
         return out
     finally:
         run.close()
@@ -769,6 +811,7 @@ def case_files(fl, storage, rng):
         out = [("line", "c01 | %s | %s" % (enc_tree(tl, run.fold), enc_tree(tr, run.fold)), sm, key),
                ("line", "c02 | %s | %s | %s" % (" ".join(rec.ledger), enc_tree(tl), enc_tree(tr)), sm, None)]
         out += [("line", ln, sm, None) for ln in run.retransfer_lines()]
+        out += run.exact_case_lines(sm)
         return out
     finally:
         run.close()
@@ -818,6 +861,7 @@ def case_onesided(fl, storage, rng):
         out = [("line", "c03 | %s | %s | %s | %d %d" % (enc_tree(expected, run.fold), enc_tree(w.tree(side), run.fold),
                                                         enc_tree(w.tree(1 - side), run.fold), rec.origin_changed_steps[side], extra), sm, key)]
         out += [("line", ln, sm, None) for ln in run.retransfer_lines()]
+        out += run.exact_case_lines(sm)
         return out
     finally:
         run.close()
@@ -868,6 +912,7 @@ def case_disjoint(fl, storage, rng):
                                                  " ".join(op_token(o) for o in ops if o[0] == 1), enc_tree(w.tree(0), run.fold), enc_tree(w.tree(1), run.fold))
         out = [("line", line, sm, key)]
         out += [("line", ln, sm, None) for ln in run.retransfer_lines()]
+        out += run.exact_case_lines(sm)
         return out
     finally:
         run.close()
@@ -979,6 +1024,40 @@ def case_recreate(fl, storage, rng, side, kind, variant, fresh_pos):
         return [("line", "c01 | %s | %s" % (enc_tree(tl, run.fold), enc_tree(tr, run.fold)), sm, (fl, storage, "recreate", side, kind, variant, fresh_pos)),
                 ("line", "c02 | %s | %s | %s" % (" ".join(rec.ledger), enc_tree(tl), enc_tree(tr)), sm, None),
                 ("line", "c06a | %s | %s" % (enc_tree(tl), enc_tree(tr)), sm, None)]
+    finally:
+        run.close()
+
+
+def case_offline_rename(fl, storage, rng, side, obj, how, variant, fresh_pos, graceful=True):
+    """corner: an id-stable object is renamed while the engine is down - only the letter case (case-insensitive side), to a new
+    name, or into another folder - and the restart loses / keeps that side's cursor; a walk sees the same id at a new path, so the
+    rename must reach the other side, letter for letter, without the content being transferred again"""
+    run = RestartRun(fl, storage, rng)
+    rec, w = run.rec, run.w
+    try:
+        t0 = rec.fresh()
+        rec.user(side, "mkdir", "/dir")
+        rec.user(side, "mkdir", "/other")
+        rec.user(side, "create", "/dir/report.txt", tag=t0)
+        rec.user(side, "create", "/top.txt", tag=rec.fresh())
+        if not run.quiesce():
+            return [("hard", None, run.summary({"failure": "base did not go quiet"}), None)]
+        run.stop(graceful)
+        src = {"file": "/top.txt", "nested": "/dir/report.txt", "folder": "/dir"}[obj]
+        head, leaf = src.rsplit("/", 1)
+        dst = {"case": head + "/" + leaf.swapcase(), "rename": head + "/renamed", "move": "/other/" + leaf}[how]
+        if not rec.user(side, "rename", src, dst):
+            return []
+        run.restart(variant, fresh_pos)
+        if not run.quiesce():
+            return [("hard", None, run.summary({"failure": "engine did not go quiet within the step cap after the restart"}), None)]
+        tl, tr = w.tree(0), w.tree(1)
+        sm = run.summary({"family": "offline-rename", "renamed": [src, dst]})
+        moved = run.transfers[run.stops[-1]["transfer_at"]:]
+        return [("line", "c01 | %s | %s" % (enc_tree(tl), enc_tree(tr)), sm, (fl, storage, "offline-rename", side, obj, how, variant, fresh_pos)),
+                ("line", "c02 | %s | %s | %s" % (" ".join(rec.ledger), enc_tree(tl), enc_tree(tr)), sm, None),
+                ("line", "c06a | %s | %s" % (enc_tree(tl), enc_tree(tr)), sm, None),
+                ("line", "c06r | %s | %s" % (" ".join(str(x) for x in sorted(run.stops[-1]["same"].values())), " ".join(map(str, moved))), sm, None)]
     finally:
         run.close()
 
@@ -1103,6 +1182,16 @@ def engine_cases(tier, seed, families=None, n=None):
             storage = "sqlite" if (j + k) % 2 else "mock"
             for item in case_recreate(fl, storage, rng, sd, kind, v, f):
                 yield item
+    for j, fl in enumerate(flavours):
+        orn = [(sd, obj, how, v % sd, f) for sd in (0, 1) if not FLAVOURS[fl][sd][0]
+               for obj in ("file", "nested", "folder") for how in (("case", "rename", "move") if not FLAVOURS[fl][sd][1] else ("rename", "move"))
+               for v in ("corrupt%d", "delcur%d", "expired%d", "intact%.0d") for f in (True, False)]
+        combos = orn if tier != "quick" else [orn[(seed * 13 + j * 7 + t * 19) % len(orn)] for t in range(6)] if orn else []
+        for k, (sd, obj, how, v, f) in enumerate(combos):
+            v = "intact" if v.startswith("intact") else v
+            for storage in (("mock", "sqlite") if tier != "quick" else ("sqlite" if (j + k) % 2 else "mock",)):
+                for item in case_offline_rename(fl, storage, rng, sd, obj, how, v, f, graceful=(k % 3 != 0)):
+                    yield item
     sp = [(v, f, m) for v in ("intact", "delcur0", "delcur1", "corrupt0", "corrupt1", "delwalk1") for f in (True, False) for m in (True, False)]
     for j, fl in enumerate(flavours):
         combos = sp if tier != "quick" else [sp[(seed * 7 + j * 5 + t * 11) % len(sp)] for t in range(3)]
@@ -1542,6 +1631,8 @@ def run(res, tier, seed, proof_broken, replay):
         "engine_obligations_by_family": dict(fam_hist), "engine_restart_variants": dict(variants), "engine_storage": dict(storages),
         "engine_runs": len([k for k in e_keys if k]), "traces_validated_against_impl": len(e_lines),
         "stops_with_walk_pending": sum(sm.get("stops_with_walk_pending", 0) for sm, k in zip(e_sums, e_keys) if k),
+        "renames_in_lost_window": sum(sm.get("renames_in_lost_window", 0) for sm, k in zip(e_sums, e_keys) if k),
+        "case_only_renames_in_lost_window": sum(sm.get("case_only_renames_in_lost_window", 0) for sm, k in zip(e_sums, e_keys) if k),
         "witness_replays": {k: {"agree": v["agree"], "lost": v["lost"]} for k, v in wit.items()},
         "fingerprints": fingerprints(FP_SPEC),
     })
@@ -1549,8 +1640,9 @@ def run(res, tier, seed, proof_broken, replay):
         "step-atomic engine semantics for the engine-level runs: user operations and stops fall between engine steps (the EventManager model and its "
         "correspondence go below that: a stop between any two storage writes, and inside the walk / event loops)",
         "harness determinisation (sequential ids, virtual clock, insertion-ordered sets) selects one admissible behaviour of the real program",
-        "engine families/flavours restricted to those measured reliable on the pinned engine; after a restart that lost a cursor only creations and "
-        "modifications are generated until that side has reset its cursor and walked (the property promises nothing about deletions then)",
+        "engine families/flavours restricted to those measured reliable on the pinned engine; after a restart that lost a cursor only creations, "
+        "modifications and - on id-style sides - renames / moves / case-only renames are generated until that side has reset its cursor and walked "
+        "(a walk sees an id at a new path; deletions stay excluded: the property promises nothing about them then)",
         "stops are placed anywhere between engine steps, also while a walk is still pending (`stops_with_walk_pending` in the coverage): the "
         "window of the former findings need-walk-not-persisted/* is closed by the repair and no longer avoided",
         "not modelled in Event.lean: reconnect/token/temporary errors, id-less events, root-missing detection, entry contents (walk de-duplication)",
